@@ -1,6 +1,6 @@
 """C37 — client and server interoperate under every supported security configuration.
 
-proof   : Props/C37.v — connect_ok over the complete configuration set computed from Gen.PolicyParams /
+proof   : Props/C37.v — connect_ok over the complete configuration set (client and server key sizes chosen independently) computed from Gen.PolicyParams /
           Gen.InteropTables (regenerated from /repo by calling uapolicy on every run), vm_compute + forallb_forall.
 tie     : the same matrix is run for real (stock server + stock client: GetEndpoints, Connect = OPN + CreateSession +
           ActivateSession, Read, Write, Read back); every outcome and every advertised endpoint list is compared with
@@ -12,7 +12,8 @@ oracle  : the property itself on the observations: a configuration inside the Pa
 import json, os
 import vf
 
-KEYS = os.path.join(vf.VERIF, "work", "keys")
+# RSA keys do not depend on /repo: scratch copies share the cache of the main tree when it exists
+KEYS = "/verif/work/keys" if os.path.isdir("/verif/work/keys") else os.path.join(vf.VERIF, "work", "keys")
 
 SPEC_KEYS = {"Basic128Rsa15": (1024, 2048), "Basic256": (1024, 2048), "Basic256Sha256": (2048, 4096),
              "Aes128_Sha256_RsaOaep": (2048, 4096), "Aes256_Sha256_RsaPss": (2048, 4096)}
@@ -23,13 +24,34 @@ MIXED = [  # server enables a second policy first (DESIGN C37 open edge); outcom
     "Basic256Sha256:2:2048:1:Basic128Rsa15/2",
     "Basic256Sha256:2:4096:1:Basic128Rsa15/2",
     "Basic256Sha256:2:4096:0:Basic128Rsa15/2",
+    "Basic256Sha256:3:2048/4096:1:Basic128Rsa15/2",
     "Basic128Rsa15:2:1024:1:Basic256Sha256/3",
     "Basic128Rsa15:3:2048:1:Basic256Sha256/3+Aes256_Sha256_RsaPss/2",
 ]
 
 
+SHA2 = ["Aes128_Sha256_RsaOaep", "Aes256_Sha256_RsaPss", "Basic256Sha256"]
+SHA1 = ["Basic128Rsa15", "Basic256"]
+
+
+def quick_matrix():
+    """equal 2048-bit keys for every policy/mode/token, client and server keys on different sides of every limit,
+    and a few pairs outside the limits (must fail)"""
+    cfgs = ["None:1:0:0", "None:1:0:1"]
+    for p in SHA2 + SHA1:
+        other = 3072 if p in SHA2 else 1024
+        for m in (2, 3):
+            for t in (0, 1):
+                cfgs.append("%s:%d:2048:%d" % (p, m, t))
+            cfgs.append("%s:%d:2048/%d:%d" % (p, m, other, m % 2))
+            cfgs.append("%s:%d:%d/2048:%d" % (p, m, other, (m + 1) % 2))
+    cfgs += ["Basic256Sha256:3:1024/2048:0", "Basic256Sha256:2:2048/1024:1", "Basic128Rsa15:2:2048/3072:0", "Aes256_Sha256_RsaPss:3:1024:0"]
+    return cfgs
+
+
 def cfg_str(o):
-    s = "%s:%d:%d:%d" % (o["policy"], o["mode"], o["keybits"], o["token"])
+    kb = str(o["keybits"]) if o["keybits"] == o.get("skeybits", o["keybits"]) else "%d/%d" % (o["keybits"], o["skeybits"])
+    s = "%s:%d:%s:%d" % (o["policy"], o["mode"], kb, o["token"])
     if o.get("extra"):
         s += ":" + o["extra"]
     return s
@@ -39,7 +61,7 @@ def spec_supported(o):
     if o["policy"] == "None":
         return o["mode"] == 1
     lo, hi = SPEC_KEYS.get(o["policy"], (1, 0))
-    return o["mode"] in (2, 3) and lo <= o["keybits"] <= hi
+    return o["mode"] in (2, 3) and lo <= o["keybits"] <= hi and lo <= o.get("skeybits", o["keybits"]) <= hi
 
 
 def coq_case(o):
@@ -55,8 +77,8 @@ def coq_case(o):
     for e in o.get("endpoints") or []:
         toks = ["{| tp_type := %s; tp_uri := \"%s\" |}" % ("TUser" if t["type"] == 1 else "TAnon", t["uri"]) for t in e.get("tokens") or []]
         eps.append('{| ep_pol := "%s"; ep_mode := %d; ep_level := %d; ep_toks := [%s] |}' % (e["policy"], e["mode"], e["level"], "; ".join(toks)))
-    return '({| c_pol := "%s"; c_mode := %d; c_kb := %d; c_tok := %s |}, [%s], %s, [%s])' % (
-        o["policy"], o["mode"], o["keybits"] // 8, tok, "; ".join(pairs), "true" if o["ok"] else "false", "; ".join(eps))
+    return '({| c_pol := "%s"; c_mode := %d; c_kb := %d; c_skb := %d; c_tok := %s |}, [%s], %s, [%s])' % (
+        o["policy"], o["mode"], o["keybits"] // 8, o.get("skeybits", o["keybits"]) // 8, tok, "; ".join(pairs), "true" if o["ok"] else "false", "; ".join(eps))
 
 
 def policy_ids_ok(o):
@@ -97,7 +119,7 @@ def run(ctx):
     elif ctx.thorough():
         args, sizes = [], "1024,2048,3072,4096"
     else:
-        args, sizes = [], "1024,2048"
+        args, sizes = quick_matrix(), "2048"
     cmd = [h, "-keys", KEYS, "-sizes", sizes, "c37"] + args
     rc, out = vf.sh(cmd, timeout=1500, env=vf.GOENV)
     obs = [json.loads(l) for l in out.splitlines() if l.startswith('{"kind":"c37"')]
@@ -156,17 +178,17 @@ def run(ctx):
     ctx.coverage.update({
         "evaluations": len(obs),
         "distinct_nontrivial": len({cfg_str(o) for o in obs}),
-        "rule": "one real server+client run per configuration (policy x mode x RSA bits in {%s} x token%s); distinct = distinct configuration strings; each run = GetEndpoints, Connect (OPN, CreateSession, ActivateSession), Read, Write, Read back" % (sizes, ", plus mixed-server edge cases" if ctx.thorough() else ""),
-        "samples": [{k: o[k] for k in ("policy", "mode", "keybits", "token", "ok", "stage", "client_nonce", "server_nonce", "ms")} for o in (obs[:3] + obs[-2:])],
+        "rule": "one real server+client run per configuration (policy x mode x client/server RSA bits (thorough: all pairs of {%s}) x token%s); distinct = distinct configuration strings; each run = GetEndpoints, Connect (OPN, CreateSession, ActivateSession), Read, Write, Read back" % (sizes, ", plus mixed-server edge cases" if ctx.thorough() else ""),
+        "samples": [{k: o[k] for k in ("policy", "mode", "keybits", "skeybits", "token", "ok", "stage", "client_nonce", "server_nonce", "ms")} for o in (obs[:3] + obs[-2:])],
         "outcomes": {"ok": n_ok, "failed_as_predicted_or_not": len(obs) - n_ok},
         "spec_supported_configs_run": sum(1 for o in obs if not o.get("extra") and spec_supported(o) and o["tok_advertised"]),
-        "model_configs_total": 53,
+        "model_configs_total": 141,
         "key_sizes": sizes,
         "traces_validated_against_impl": len(obs),
         "model_impl_mismatches": len(mism),
     })
     if not ctx.thorough():
-        ctx.notes.append("quick tier runs RSA-1024 and RSA-2048 only (32 of the 53 configurations of C37_configs plus 13 predicted-to-fail/extra ones); the thorough tier runs all four key sizes = the complete matrix")
+        ctx.notes.append("quick tier: 2048/2048 for every policy, mode and token, client and server keys on different sides of 2048 bits (2048/3072, 3072/2048; 1024/2048 for the SHA-1 policies) and 4 pairs outside the limits; the thorough tier runs every client x server key size pair = the complete matrix of 141 configurations plus the pairs that must fail")
 
     new, seen = 0, set()
     for key0, why, o in fails:
